@@ -319,6 +319,24 @@ def one_history(ctx, net, rng, idx):
                     cliopts[opt] = rng.choice([102, 103, 151, 160]) if v1only else rng.choice([203, 203, 102, 160, 211, 220])  # 203 = built-in default
                 else:
                     cliopts[opt] = hist_value(rng, opt, r)
+        if r > 0 and kind == "write" and rng.random() < 0.3:
+            # a --write for ANOTHER nickname that has no section in the user's file yet: must not disturb the
+            # default CLIENTUID nor the settings saved for `nick`
+            other = "other" + "".join(rng.choice("klmnop") for _ in range(4))
+            oargv = ["stmt", other, "--url", gen_url(rng, "other"), "--user", "ouser", "--bankid", "123456789", "-C", "42", "--password", canary, "--write"]
+            oinv, _ = cli.run_main(oargv)
+            ctx.count("history_runs")
+            ctx.count("other_nickname_writes")
+            runs.append({"kind": "write-other-nickname", "argv": oargv})
+            if oinv.exc is not None:
+                ctx.violation(f"history/run-fails/write-other/{type(oinv.exc).__name__}", f"{oargv}: {oinv.exc!r}", case)
+                return
+            c2 = configparser.ConfigParser(interpolation=None)
+            c2.read_string(cli.user_cfg_path().read_text())
+            cu2 = c2.defaults().get("clientuid")
+            if default_cuid is not None and cu2 != default_cuid:
+                ctx.violation("persist/default-clientuid-changed", f"writing nickname {other} changed the default CLIENTUID {default_cuid} -> {cu2}", case)
+                return
         argv = argv_for(nick, cliopts) + ["--password", canary]
         if kind in ("write", "dry-write"):
             argv.append("--write")
